@@ -70,6 +70,10 @@ type loaderCase struct {
 func runLoaderCases(p *Prog, cases []loaderCase) (problems []string, undecided string, runs int) {
 	for _, c := range cases {
 		outs, why := runLoadDeb(p, c.sc)
+		if strings.HasPrefix(why, "panic") {
+			problems = append(problems, c.name+": the loader panics instead of returning an error: "+why)
+			continue
+		}
 		if why != "" {
 			return nil, c.name + ": " + why, runs
 		}
@@ -379,6 +383,35 @@ func checkC15(p *Prog, rp *Report) {
 			fillProblems(lp, "deb.Load", pos, problems, "io.EOF ends the loop, any other error of Next is returned")
 		}
 	}
+	np := rp.Rule("C15-NOPANIC", "malformed packages end in an error, not in a panic", 1)
+	{
+		with := func(f func(sc *debScenario)) debScenario {
+			sc := std
+			sc.members = append([]string(nil), std.members...)
+			sc.tarEntries = append([]string(nil), std.tarEntries...)
+			f(&sc)
+			return sc
+		}
+		any := func(o debOutcome) string { return "" }
+		cases := []loaderCase{
+			{"control tarball without a control file", with(func(sc *debScenario) { sc.tarEntries = []string{"./", "./md5sums"} }), mustFail("a control tarball without a control file")},
+			{"empty control tarball", with(func(sc *debScenario) { sc.tarEntries = nil }), mustFail("an empty control tarball")},
+			{"control file that does not unmarshal", with(func(sc *debScenario) { sc.unmarshalErr = true }), mustFail("a control file that does not unmarshal")},
+			{"decompressor constructor error", with(func(sc *debScenario) { sc.ctorErr = "gzip" }), mustFail("a control member whose decompressor cannot be opened")},
+			{"close error", with(func(sc *debScenario) { sc.closeErr = true }), mustFail("a decompressor that fails on Close")},
+			{"no members at all", with(func(sc *debScenario) { sc.members = nil }), mustFail("an empty archive")},
+			{"only debian-binary", with(func(sc *debScenario) { sc.members = []string{"debian-binary"} }), mustFail("a package with only debian-binary")},
+			{"empty debian-binary", with(func(sc *debScenario) { sc.binary = "" }), mustFail("an empty debian-binary")},
+			{"short member names", with(func(sc *debScenario) { sc.members = []string{"debian-binary", "control.", "data."} }), any},
+			{"member names equal to the prefixes", with(func(sc *debScenario) { sc.members = []string{"debian-binary", "control", "data"} }), any},
+		}
+		problems, undec, runs := runLoaderCases(p, cases)
+		if undec != "" {
+			np.undecided("deb.Load", pos, undec)
+		} else {
+			fillProblems(np, "deb.Load", pos, problems, fmt.Sprintf("%d malformed packages / %d runs: each ends in an error (or loads), none in a panic", len(cases), runs))
+		}
+	}
 	d := rp.Rule("C15-DET", "no result depends on map iteration order", 2)
 	{
 		mk := func(extra ...string) debScenario {
@@ -637,6 +670,18 @@ func checkC16(p *Prog, rp *Report) {
 					}
 				}
 			}
+		}
+	}
+	// a verdict is never remembered: the same Deb checked again with another keyring is verified again
+	if undec == "" {
+		errNil, ver, why := runCheckDebsigTwice(p, members, "origin")
+		switch {
+		case why != "":
+			undec = why
+		case errNil:
+			streamP = append(streamP, fmt.Sprintf("after a successful check, a second check of the same Deb against an unrelated keyring (which the library rejects) succeeds; verification calls of the second check: %v", ver))
+		case len(ver) != 1 || !strings.HasPrefix(ver[0], "an-unrelated-keyring|"):
+			streamP = append(streamP, fmt.Sprintf("a second check of the same Deb does not verify against the keyring it is given: %v", ver))
 		}
 	}
 	// same members as the loader
